@@ -254,13 +254,13 @@ def run_step(prog: Program, net: Net, flags=None, delta=True, phi=True) -> Inter
 
 
 def to_function(prog: Program, net: Net, compact=0, more_out=False, parameters=None, other=None,
-                scan_only=False):
+                scan_only=False, it=None):
     """Interpret Engine.to_function; returns ('function', names_in, args_in, names_out, args_out,
     opts, interp) / ('raise', Raised, interp) / ('scan-passed', interp)"""
     w = net.w
     w.scan_only = scan_only
     w.captured.pop("Function", None)
-    it = w.interp()
+    it = it or w.interp()  # (a caller may keep one interpreter, i.e. one process, for several calls)
     fi = prog.function("sym_metanet.engines.casadi", "Engine.to_function")
     kw = {"compact": compact, "more_out": more_out}
     if parameters is not None:
